@@ -45,6 +45,14 @@ static int verif_stub_read_dns_withq(int dns_fd, int tun_fd, char *buf, int bufl
 static void verif_stub_send_ping(int fd);
 static void verif_stub_send_chunk(int fd);
 #endif
+#ifdef STUB_READDNS
+/* read_dns_withq: the payload decoder has its own proof (group cli_namedec); calls pass `data` or `data + dataoffset` */
+#define NDSEL_char verif_real_dns_namedec(char
+#define NDSEL_data verif_stub_dns_namedec(data
+#define dns_namedec(a, b, c, d) NDSEL_##a, b, c, d)
+#define recvfrom verif_recvfrom_c
+static int verif_stub_dns_namedec(char *outdata, int outdatalen, char *buf, int buflen);
+#endif
 #ifdef STUB_HANDSHAKE
 /* handshake parsers: the reply reader and the query senders are replaced by their contracts */
 #define HWSEL_int verif_real_handshake_waitdns(int
@@ -104,6 +112,11 @@ static int verif_sscanf4(const char *str, char *a, char *b, int *c, int *d);
 #endif
 #include VERIF_SHRUNK_TU
 #include VERIF_SHRUNK_MACROS
+#ifdef STUB_READDNS
+#undef dns_namedec
+#undef recvfrom
+#define dns_namedec verif_real_dns_namedec
+#endif
 #ifdef STUB_HANDSHAKE
 #undef handshake_waitdns
 #undef send_login
@@ -185,11 +198,14 @@ static int g_dec_calls, g_dec_codec; static const char *g_dec_src; static size_t
 static int stub_dec(int codec, void *dst, size_t *dstlen, const char *src, size_t srclen)
 {
 	int r = nondet_int();
-	__CPROVER_assert(__CPROVER_w_ok(dst, *dstlen + 1), "decoder output has room for *dstlen + 1 bytes");
+	/* C07 decoder contract: result = min(capacity, bytes the text decodes to) <= number of characters; bytes 0..result written
+	 * in order, then one NUL: at most min(capacity, srclen) + 1 bytes are touched */
+	size_t room = (*dstlen < srclen ? *dstlen : srclen) + 1;
+	__CPROVER_assert(__CPROVER_w_ok(dst, room), "decoder output has room for min(*dstlen, srclen) + 1 bytes");
 	__CPROVER_assert(srclen == 0 || __CPROVER_r_ok(src, srclen), "decoder input readable for srclen bytes");
 	g_dec_calls++; g_dec_codec = codec; g_dec_src = src; g_dec_srclen = srclen; g_dec_cap = *dstlen; g_dec_dst = dst;
-	__CPROVER_assume(r >= 0 && (size_t)r <= *dstlen);
-	__CPROVER_havoc_slice(dst, *dstlen + 1);
+	__CPROVER_assume(r >= 0 && (size_t)r + 1 <= room);
+	__CPROVER_havoc_slice(dst, room);
 	*dstlen = (size_t)r;
 	return r;
 }
@@ -205,12 +221,14 @@ static int g_unp_calls, g_unp_codec; static char *g_unp_data; static size_t g_un
 int unpack_data(char *buf, size_t buflen, char *data, size_t datalen, const struct encoder *enc)
 {
 	int r = nondet_int();
-	__CPROVER_assert(__CPROVER_w_ok(buf, buflen), "unpack_data: output writable for buflen bytes");
+	/* group enc_unpack_data: undotify in place, then the codec's decoder with capacity buflen on at most datalen characters */
+	size_t room = (buflen < datalen ? buflen : datalen) + 1;
+	__CPROVER_assert(__CPROVER_w_ok(buf, room), "unpack_data: output has room for min(buflen, datalen) + 1 bytes");
 	__CPROVER_assert(datalen == 0 || __CPROVER_rw_ok(data, datalen), "unpack_data: encoded text readable and writable for datalen bytes");
 	g_unp_calls++; g_unp_data = data; g_unp_len = datalen; g_unp_cap = buflen; g_unp_dst = buf;
 	g_unp_codec = enc == &base32_ops ? 32 : enc == &base64_ops ? 64 : enc == &base64u_ops ? 65 : enc == &base128_ops ? 128 : -1;
-	__CPROVER_assume(r >= 0 && (size_t)r <= buflen);
-	if (buflen) __CPROVER_havoc_slice(buf, buflen);
+	__CPROVER_assume(r >= 0 && (size_t)r + 1 <= room);
+	__CPROVER_havoc_slice(buf, room);
 	return r;
 }
 
@@ -225,7 +243,7 @@ void h_namedec(void)
 	__CPROVER_assume(outlen >= 1 && outlen <= 65536);             /* callers pass the space left in data[64K] */
 	static char bufobj[NAMEDEC_CAP + 1];
 	char *buf = bufobj;
-	char *out = malloc((size_t)outlen + 1);                       /* decoders write a NUL behind their output */
+	char *out = malloc((size_t)(outlen < buflen ? outlen : buflen) + 1);   /* EXACTLY what dns_namedec may touch: min(space, text length) bytes + the decoders' NUL */
 	__CPROVER_havoc_object(bufobj);
 	char c = buf[0];
 	g_dec_calls = g_unp_calls = 0;
@@ -546,6 +564,89 @@ void h_hs_raw(void)
 	__CPROVER_assert(g_sendto_calls == 0 || (g_sendto_len == 20 && (g_sendto_b3 & 0xF0) == RAW_HDR_CMD_LOGIN), "it is a 20-byte raw login frame");
 	__CPROVER_assert(r == 0 || (g_lc_calls >= 2 && g_recv_ret >= 20), "raw mode is entered only after a reply of at least 20 bytes was compared with the response for challenge - 1");
 	{ int k; for (k = 1; k < 4 && k < g_lc_calls; k++) __CPROVER_assert(g_lc_seed[k] == (int)((unsigned)seed + 1u) || g_lc_seed[k] == (int)((unsigned)seed - 1u), "every login computation uses challenge + 1 (towards the server) or challenge - 1 (back)"); }
+	VERIF_REACH();
+}
+#endif
+
+
+/* ---- read_dns_withq: the client's reply reader (C06; it establishes the contract the tunnel_dns / handshake groups assume:
+ * result -1..buflen, nothing written outside buf[0..buflen), tun written only with a successfully inflated raw packet) ------ */
+#ifdef STUB_READDNS
+static int g_rcv_ret, g_tunw; static const void *g_tunw_data; static size_t g_tunw_len;
+static int g_unz_calls2, g_unz_rc2; static const void *g_unz_dst2; static unsigned long g_unz_out2;
+ssize_t verif_recvfrom_c(int fd, void *buf, size_t len, int flags, __SOCKADDR_ARG from, socklen_t *fromlen)
+{
+	__CPROVER_assert(__CPROVER_w_ok(buf, len), "recvfrom: buffer writable for len bytes");
+	__CPROVER_assume(g_rcv_ret >= -1 && (size_t)(g_rcv_ret < 0 ? 0 : g_rcv_ret) <= len);
+	return g_rcv_ret;
+}
+int write_tun(int fd, char *data, size_t len) { g_tunw++; g_tunw_data = data; g_tunw_len = len; return (int)len; }
+int verif_uncompress(unsigned char *dest, unsigned long *destLen, const unsigned char *source, unsigned long sourceLen)
+{
+	__CPROVER_assert(__CPROVER_w_ok(dest, *destLen), "uncompress: output writable for *destLen bytes");
+	__CPROVER_assert(sourceLen == 0 || __CPROVER_r_ok(source, sourceLen), "uncompress: input readable for sourceLen bytes");
+	g_unz_calls2++; g_unz_dst2 = dest;
+	unsigned long n = nondet_size_t();
+	__CPROVER_assume(n <= *destLen);
+	g_unz_rc2 = nondet_bool() ? 0 : -3;
+	if (g_unz_rc2 == 0) { *destLen = n; g_unz_out2 = n; }
+	return g_unz_rc2;
+}
+/* dns_decode, answer direction (groups dns_decode_answer_*): result -1..buflen; for MX/SRV the names are written one after
+ * the other, each NUL-terminated, plus a final NUL, result = index of that final NUL <= buflen - 2 */
+static int g_dd_rv; static unsigned short g_dd_type;
+int dns_decode(char *buf, size_t buflen, struct query *q, qr_t qr, char *packet, size_t packetlen)
+{
+	__CPROVER_assert(qr == QR_ANSWER && buflen >= 2 && __CPROVER_w_ok(buf, buflen), "dns_decode: answer buffer of at least 2 bytes, writable for buflen bytes");
+	__CPROVER_assert(packetlen == 0 || __CPROVER_r_ok(packet, packetlen), "dns_decode: datagram readable for its own length");
+	__CPROVER_havoc_slice(buf, buflen);
+	__CPROVER_havoc_object(q);
+	q->type = g_dd_type;
+	__CPROVER_assume(g_dd_rv >= -1 && (size_t)(g_dd_rv < 0 ? 0 : g_dd_rv) <= buflen);
+	if (g_dd_type == T_MX || g_dd_type == T_SRV) {
+		__CPROVER_assume(g_dd_rv < 0 || (size_t)g_dd_rv + 2 <= buflen);
+		if (g_dd_rv >= 0) { buf[g_dd_rv] = 0; g_nul_obj = buf; g_nul_at = (size_t)g_dd_rv; }
+	} else {
+		/* single-record answers come out of dns_decode's rdata[4096] / name[256]: at most 4096 bytes, which is less than the
+		 * capacity of read_dns_withq's datagram buffer (64 KB); in the verified text that buffer has 64 bytes and the same
+		 * relation is kept by letting single-record answers have at most half of it */
+		__CPROVER_assume(g_dd_rv <= (int)(sizeof(inpkt.data) / 2));
+	}
+	return g_dd_rv;
+}
+/* contract of dns_namedec (group cli_namedec): touches at most min(outdatalen, buflen) + 1 bytes of outdata, reads buf[0..buflen),
+ * result 0..min(outdatalen, buflen) */
+static int verif_stub_dns_namedec(char *outdata, int outdatalen, char *buf, int buflen)
+{
+	int r = nondet_int();
+	__CPROVER_assert(buflen >= 1 && outdatalen >= 1, "dns_namedec: non-empty text and space");
+	size_t room = (size_t)(outdatalen < buflen ? outdatalen : buflen) + 1;
+	__CPROVER_assert(__CPROVER_w_ok(outdata, room), "dns_namedec: output has room for min(outdatalen, buflen) + 1 bytes");
+	__CPROVER_assert(__CPROVER_rw_ok(buf, buflen), "dns_namedec: text readable (and writable: undotify) for buflen bytes");
+	__CPROVER_assume(r >= 0 && (size_t)r + 1 <= room);
+	__CPROVER_havoc_slice(outdata, room);
+	return r;
+}
+void h_read_dns(void)
+{
+	int buflen = nondet_int();
+	/* callers: handshake buffers of 4095/4096 bytes, tunnel_dns's 64 KB buffer - never more than read_dns_withq's own
+	 * datagram buffer, which has the capacity of a packet payload (64 KB in the source, shrunk together in the verified text) */
+	__CPROVER_assume(buflen >= 2 && (size_t)buflen <= sizeof(inpkt.data));
+	char *buf = malloc(buflen);                       /* EXACTLY the space the caller offers */
+	struct query q;
+	conn = nondet_bool() ? CONN_DNS_NULL : CONN_RAW_UDP;
+	userid = (char)nondet_int();
+	g_rcv_ret = nondet_int(); g_dd_rv = nondet_int(); g_dd_type = (unsigned short)nondet_int();
+	g_tunw = g_unz_calls2 = 0; g_nul_obj = 0;
+	int r = read_dns_withq(8, 7, buf, buflen, &q);
+	__CPROVER_assert(r >= -1 && r <= buflen, "read_dns_withq returns -1..buflen (what its callers index the reply buffer with)");
+	if (conn == CONN_DNS_NULL)
+		__CPROVER_assert(g_tunw == 0 && g_unz_calls2 == 0, "DNS mode: the reply reader itself delivers nothing");
+	else {
+		__CPROVER_assert(r == 0 || (r == -1 && g_rcv_ret < 0), "raw mode: nothing is handed to the DNS reply handlers (-1 only on a receive error)");
+		__CPROVER_assert(g_tunw <= 1 && (g_tunw == 0 || (g_unz_calls2 == 1 && g_unz_rc2 == 0 && g_tunw_data == g_unz_dst2 && g_tunw_len == g_unz_out2 && g_rcv_ret >= 4)), "raw mode: tun gets only a successfully inflated packet, with zlib's bytes and length");
+	}
 	VERIF_REACH();
 }
 #endif
